@@ -7,6 +7,7 @@ import (
 	"fmt"
 	"io"
 	"os"
+	"runtime"
 	"strings"
 	"time"
 
@@ -361,6 +362,12 @@ func c15Exec(sc *c15Scn, cancel string, cancelStep, cancelTick int, log *core.Lo
 		}
 	}
 	defer func() { interp.VerifStep = nil }()
+	if !childArch && sc.Arch != "outputs" {
+		// One P: the interpreter's goroutine is the only one that must make progress; an
+		// implementation that relies on some other goroutine noticing the cancellation gets no
+		// help from a lucky scheduler (and the run does not depend on the machine's load).
+		defer runtime.GOMAXPROCS(runtime.GOMAXPROCS(1))
+	}
 	it, err := interp.New(prog)
 	if err != nil {
 		core.Fatal("C15: New: %v", err)
